@@ -523,6 +523,93 @@ func runResForward(c *core.Ctx) {
 				} else {
 					c.Bad(key, r.Pos(), "Index returns a child resource on a path that never records it in dirtyElems: the section's effects on that child are neither committed nor rolled back")
 				}
+				// the child handed out is the one recorded, and it is the stable child of that index: either looked up
+				// (and found) in the holder's map, or created and stored there before being returned
+				v := an.ObjOf(info, r.(*ast.ReturnStmt).Results[0])
+				if v == nil {
+					continue
+				}
+				sameMarked := false
+				for _, mk := range marks {
+					if call := mk.(*ast.CallExpr); len(call.Args) == 2 && an.ObjOf(info, call.Args[1]) == v && g.Dominates(mk, r) {
+						sameMarked = true
+					}
+				}
+				c.Check(sameMarked, key+"-is-the-recorded-child", r.Pos(), "the child returned is the one recorded as dirty", "the child recorded in dirtyElems is not the one returned: the returned child's effects escape commit/abort")
+				stable, why := false, "the returned child is neither looked up in nor stored into the holder's element map"
+				getField := func(call *ast.CallExpr, name string) *types.Var {
+					fn := an.CalleeFunc(info, call)
+					if fn == nil || fn.Name() != name {
+						return nil
+					}
+					sel, ok := an.Unparen(call.Fun).(*ast.SelectorExpr)
+					if !ok {
+						return nil
+					}
+					return an.SelectedField(info, sel.X)
+				}
+				elemMaps := map[*types.Var]bool{}
+				g.AllAtoms(func(a ast.Node) {
+					if call, ok := a.(*ast.CallExpr); ok {
+						if f := getField(call, "Get"); f != nil && f.Name() != "dirtyElems" {
+							elemMaps[f] = true
+						}
+					}
+				})
+				for _, a := range g.FindAtoms(func(a ast.Node) bool {
+					as, ok := a.(*ast.AssignStmt)
+					return ok && len(as.Lhs) >= 1 && an.ObjOf(info, as.Lhs[0]) == v && len(as.Rhs) == 1
+				}) {
+					as := a.(*ast.AssignStmt)
+					call, ok := an.Unparen(as.Rhs[0]).(*ast.CallExpr)
+					if !ok {
+						continue
+					}
+					if f := getField(call, "Get"); f != nil && elemMaps[f] && len(as.Lhs) == 2 {
+						okObj := an.ObjOf(info, as.Lhs[1])
+						for _, blk := range g.CFG.Blocks {
+							cd, _ := g.Cond(blk)
+							if cd == nil {
+								continue
+							}
+							ex := ast.Expr(cd)
+							neg := false
+							for {
+								ex = an.Unparen(ex)
+								u, isU := ex.(*ast.UnaryExpr)
+								if !isU || u.Op != token.NOT {
+									break
+								}
+								neg = !neg
+								ex = u.X
+							}
+							if an.ObjOf(info, ex) == okObj && okObj != nil && g.GuardedBy(r, cd, !neg) {
+								stable = true
+							}
+						}
+						if !stable {
+							why = "the child looked up in the element map is returned although the lookup may have failed (not guarded by ok)"
+						}
+						continue
+					}
+					// created: must be stored into an element map before being returned
+					for _, st := range g.FindAtoms(func(x ast.Node) bool {
+						c2, ok := x.(*ast.CallExpr)
+						if !ok || len(c2.Args) != 2 || an.ObjOf(info, c2.Args[1]) != v {
+							return false
+						}
+						f := getField(c2, "Set")
+						return f != nil && elemMaps[f]
+					}) {
+						if g.Dominates(a, st) && g.Dominates(st, r) {
+							stable = true
+						}
+					}
+					if !stable {
+						why = "a freshly created child is returned without being stored in the element map: the next access to this index creates another child and the element's committed state is lost"
+					}
+				}
+				c.Check(stable, key+"-stable-child", r.Pos(), "the child is the found element, or a created one stored before use", why)
 			}
 		}
 	}
